@@ -125,7 +125,7 @@ def _case(draw, cfg):
     return spec
 
 
-CFG_CONV = CFG_F.copy(default_names=2, min_tasks=3, max_tasks=7, max_comps=3, max_wps=4, p_auto=0, servable=0, kinds=[0, 0, 0, 1])
+CFG_CONV = CFG_F.copy(default_names=1, min_tasks=3, max_tasks=7, max_comps=3, max_wps=4, p_auto=0, servable=0, kinds=[0, 0, 0, 1])
 
 
 @st.composite
@@ -196,7 +196,10 @@ def _siblings(draw):
     wps = []
     facs = []
     for w in range(shared):
-        wps.append({"cap": sum(sizes) + draw(st.sampled_from([0.0, 0.5, 1.0])), "targets": list(range(nchild)), "inputs": []})
+        # room for all children, or (one time in three) for all but the smallest: a finished child that waits for the
+        # parent keeps its room, a sibling that does not fit has to go elsewhere or wait
+        tight = draw(st.integers(0, 2)) == 0
+        wps.append({"cap": (sum(sizes) - min(sizes)) if (tight and len(sizes) > 1) else sum(sizes) + draw(st.sampled_from([0.0, 0.5, 1.0])), "targets": list(range(nchild)), "inputs": []})
     wps.append({"cap": psize + sum(sizes) + 1.0, "targets": [ptask] + (list(range(nchild)) if draw(st.booleans()) else []), "inputs": []})
     for w in range(len(wps)):
         for _ in range(draw(st.integers(1, 2))):
@@ -275,7 +278,7 @@ def strategy(tier):
 
 def budget(tier):
     if tier == "quick":
-        return {"cases": 2500, "shards": 5}
+        return {"cases": 4200, "shards": 7}
     return {"cases": 150000, "shards": 16}
 
 
